@@ -11,6 +11,7 @@ the client manager, at every engine.io send and at every access to the
 engine.io session store (where user sessions live); all schedules by DFS.
 """
 import threading
+import time
 
 from engineio import packet as eio_packet
 
@@ -22,6 +23,11 @@ from checks.c20 import MGR_METHODS
 SchedLock = SC.SchedLock
 
 KNOWN = 'session-survives-namespace-reconnect'
+DEADLINE = [None]
+
+
+def late():
+    return DEADLINE[0] is not None and time.time() > DEADLINE[0]
 
 
 def run_schedule(ctx, ender, choices, rng):
@@ -192,10 +198,108 @@ def run_first_touch_schedule(ctx, styles, choices, rng, bound):
     return trace
 
 
+def run_two_clients_schedule(ctx, styles, choices, rng, bound):
+    """Handlers of two different clients (one of them connected to two
+    namespaces) use their sessions at the same time, each in its own thread.
+    Afterwards every session holds exactly what its own client's handler
+    stored."""
+    sched = SC.ThreadScheduler(
+        choices=choices, rng=rng, preemption_bound=bound,
+        switch_prob=rng.choice([0.05, 0.15, 0.3]) if rng is not None
+        else None, max_steps=100000)
+    d = D.SyncDrive(async_handlers=False, autojoin=False)
+    sio = d.sio
+    for ns in ('/', '/a'):
+        d.on('connect', lambda sid, environ, auth=None: None, ns)
+    tA, tB = d.open(), d.open()
+    tA.connect('/')
+    tA.connect('/a')
+    tB.connect('/')
+    who = {'A': (tA.sids['/'], '/'), 'A2': (tA.sids['/a'], '/a'),
+           'B': (tB.sids['/'], '/')}
+    for t in (tA, tB):
+        t.drain()
+    # the sessions exist already (this is not about the first touch)
+    for name, (sid, ns) in who.items():
+        sio.save_session(sid, {'owner': name}, namespace=ns)
+
+    def actor(name, style):
+        sid, ns = who[name]
+
+        def block():
+            with sio.session(sid, namespace=ns) as s:
+                s['mark'] = name
+
+        def get_save():
+            s = sio.get_session(sid, namespace=ns)
+            s['mark'] = name
+            sio.save_session(sid, s, namespace=ns)
+
+        def replace():
+            sio.save_session(sid, {'owner': name, 'mark': name},
+                             namespace=ns)
+            sio.get_session(sid, namespace=ns)
+        return {'block': block, 'get_save': get_save,
+                'replace': replace}[style]
+    names = ['A', 'B', 'A2'][:len(styles)]
+    for name, style in zip(names, styles):
+        sched.spawn('handler_' + name, actor(name, style))
+    import socketio.base_server
+    import socketio.server
+    SC.enable_lines(sched, [socketio.server.__file__,
+                            socketio.base_server.__file__])
+    try:
+        trace = sched.run()
+    finally:
+        SC.disable_lines()
+    ctx.count('two_client_session_schedules')
+    wit = {'part': 'two_clients', 'styles': list(styles), 'bound': bound,
+           'choices': [c for _, c in trace],
+           'labels': [[a, lbl] for a, lbl in sched.labels][-60:]}
+    errs = list(sched.errors) + d.errors()
+    if sched.aborted:
+        SC.report_abort(ctx, sched, wit)
+        return trace
+    if errs:
+        wit['errors'] = [{'exc': e.get('exc'), 'tb': (e.get('tb') or '')[
+            -1200:]} for e in errs[:3]]
+        ctx.violation(None, 'handlers of two clients using their sessions at '
+                      'the same time: exception (%s)' % errs[0].get('exc'),
+                      wit)
+        return trace
+    for name, (sid, ns) in who.items():
+        got = sio.get_session(sid, namespace=ns)
+        want = {'owner': name}
+        if name in names:
+            want['mark'] = name
+        ctx.count('session_reads_checked')
+        if got != want:
+            wit['got'] = jsonable(got)
+            ctx.violation(None, 'handlers of different clients used their '
+                          'sessions at the same time; afterwards the session '
+                          'of %s (%s) reads %r, expected %r' % (
+                              name, ns, got, want), wit)
+            return trace
+    ctx.case(('two_clients', tuple(styles),
+              tuple(c for _, c in trace)[:40]), None)
+    return trace
+
+
+def explore_two_clients(ctx, styles, limit, bound):
+    choices = []
+    n = 0
+    while choices is not None and n < limit and not late() and \
+            not ctx.too_many_violations():
+        trace = run_two_clients_schedule(ctx, styles, choices, None, bound)
+        n += 1
+        choices = SC.next_schedule(trace)
+    return n, choices is None
+
+
 def explore_first_touch(ctx, styles, limit, bound):
     choices = []
     n = 0
-    while choices is not None and n < limit and \
+    while choices is not None and n < limit and not late() and \
             not ctx.too_many_violations():
         trace = run_first_touch_schedule(ctx, styles, choices, None, bound)
         n += 1
@@ -206,7 +310,7 @@ def explore_first_touch(ctx, styles, limit, bound):
 def explore(ctx, ender, limit):
     choices = []
     n = 0
-    while choices is not None and n < limit and \
+    while choices is not None and n < limit and not late() and \
             not ctx.too_many_violations():
         trace = run_schedule(ctx, ender, choices, None)
         n += 1
@@ -214,7 +318,8 @@ def explore(ctx, ender, limit):
     return n, choices is None
 
 
-def run_part(ctx):
+def run_part(ctx, seconds=None):
+    DEADLINE[0] = time.time() + seconds if seconds else None
     ctx.extra['reconnect_race'] = {}
     for ender in ('server_disconnect', 'client_disconnect'):
         n, complete = explore(ctx, ender,
@@ -223,11 +328,12 @@ def run_part(ctx):
                                               'complete': complete}
 
 
-def run_first_touch_part(ctx):
+def run_first_touch_part(ctx, seconds=None):
+    DEADLINE[0] = time.time() + seconds if seconds else None
     ctx.extra['first_touch'] = {}
-    for styles in (('block', 'block'), ('block', 'get_save'),
-                   ('get_save', 'get_save'), ('block', 'block', 'block')):
-        for bound in (1, 2):
+    for bound in (1, 2):
+        for styles in (('block', 'block'), ('block', 'get_save'),
+                       ('get_save', 'get_save'), ('block', 'block', 'block')):
             n, complete = explore_first_touch(
                 ctx, styles, 300 if ctx.tier == 'quick' else 20000, bound)
             ctx.extra['first_touch']['+'.join(styles) +
@@ -235,8 +341,25 @@ def run_first_touch_part(ctx):
                 'schedules': n, 'complete': complete}
 
 
+def run_two_clients_part(ctx, seconds=None):
+    DEADLINE[0] = time.time() + seconds if seconds else None
+    ctx.extra['two_clients'] = {}
+    for bound in (1, 2):
+        for styles in (('block', 'block'), ('block', 'get_save'),
+                       ('get_save', 'replace'), ('block', 'block', 'block'),
+                       ('replace', 'block', 'get_save')):
+            n, complete = explore_two_clients(
+                ctx, styles, 250 if ctx.tier == 'quick' else 20000, bound)
+            ctx.extra['two_clients']['+'.join(styles) +
+                                     ' <=%d pre-emptions' % bound] = {
+                'schedules': n, 'complete': complete}
+
+
 def replay(ctx, w):
     wi = w['witness']
+    if wi.get('part') == 'two_clients':
+        return run_two_clients_schedule(ctx, wi['styles'], wi['choices'],
+                                        None, wi.get('bound'))
     if wi.get('part') == 'first_touch':
         return run_first_touch_schedule(ctx, wi['styles'], wi['choices'],
                                         None, wi.get('bound'))
